@@ -23,7 +23,12 @@ RULE = ("allocation: variance/cost vectors given by their dyadic roots (so float
         "configuration, or the previous engine; initial level / paths omitted, set, or left as set before — with a different decay regime "
         "(rate, amplitude, spread) in every pricing; every pricing judged as a single pricing against the rates the USER asked for in it, "
         "compared with the same pricing done first in a new interpreter, and followed by a check that configuration, user objects and the "
-        "shared default ConvergenceRates() are unchanged. non-trivial = at least two levels with positive variance / at least one loop "
+        "shared default ConvergenceRates() are unchanged. numeric carriers: the property is about VALUES, so every numeric argument of the "
+        "public functions / configuration objects (alpha, beta, gamma, rmse, initial / maximum level, initial paths; the vectors ml, vl, cl) is "
+        "also handed over in every carrier that holds the same value exactly — Python int / float, numpy int8..int64 / uint8 / float32 / "
+        "float64 scalars, 0-d arrays; vectors as lists, tuples, int / float32 / float64 arrays (allocation: ndarray dtypes only, as declared) — "
+        "in criteria_giles (incl. all-integral means / rmse), compute_mc_paths_giles, single pricings and the pricings of the sequences; "
+        "the same oracles judge them and the result is tied to the one obtained with float / float64 carriers (c06.numeric_type). non-trivial = at least two levels with positive variance / at least one loop "
         "iteration / at least two pricings")
 NOT_PROVED = ["regression of alpha, beta, gamma (np.linalg.lstsq) is an oracle input of the loop model (the vectors ml, vl, cl the criteria "
               "receive at every iteration ARE modelled and proved to come from exactly the simulated samples: feeds_from_samples; compared "
@@ -33,7 +38,10 @@ NOT_PROVED = ["regression of alpha, beta, gamma (np.linalg.lstsq) is an oracle i
               "that the real Giles allocation is bounded along a run depends on the simulated variances and is not proved",
               "that a pricing does not depend on the pricings done before it in the same process (the model's price is a pure function of "
               "configuration and samples) is not a theorem about the implementation: it is checked on generated sequences of pricings "
-              "(c06.sequence: oracle per pricing; c06.sequence.fresh / c06.sequence.mutation as ties)"]
+              "(c06.sequence: oracle per pricing; c06.sequence.fresh / c06.sequence.mutation as ties)",
+              "that a result depends only on the VALUES of the numeric arguments, not on the Python / numpy type that carries them (the model "
+              "works on rationals) is not a theorem about the implementation: it is checked on generated carriers (oracles on the typed calls; "
+              "c06.numeric_type as tie); float32 carriers are compared within float32 rounding (decision margin 2^-18, sizes within 1 + 1e-5 N)"]
 ASSUMPTIONS = ["theorem alloc_budget_partial is over the reals with exact sqrt and ceil",
                "sequences of pricings: the process state at the start of a sequence is that of an interpreter that has imported rpylib and the "
                "harness (os.fork of such a process); if fork is unavailable the sequences run inside the harness process (noted in the evidence)"]
@@ -79,6 +87,89 @@ end Rpylib.Generated.C06
         GEN_FILE.write_text(text)
     ctx.gen = m
     return {k: str(v) for k, v in m.items()}
+
+
+# ------------------------------------------------------------------------------------------------ numeric carriers of equal values
+# The property quantifies over VALUES (rates, rmse, level numbers, sample numbers, vectors of means / variances / costs).  Python
+# has many carriers of one value: int, float, numpy integer / floating scalars of several widths, 0-d arrays; lists, tuples and arrays
+# of several dtypes for vectors.  A `num` dict names, per argument, the carrier in which the value is handed to the library (absent =
+# the carrier the generators always used: Python float / int, float64 array).  A carrier is used only if it holds the value EXACTLY,
+# so every oracle (which works on the values) applies unchanged, and the result must be the one obtained with the canonical carriers.
+REAL_KINDS = ["float", "int", "np.int64", "np.int32", "np.int8", "np.uint8", "np.float64", "np.float32", "0d.float", "0d.int"]
+INT_KINDS = ["int", "np.int64", "np.int32", "np.int8", "np.uint8"]           # arguments declared `int` (levels, numbers of paths)
+VECTOR_KINDS = ["np.float64", "np.float32", "np.int64", "np.int32", "np.uint16", "list", "tuple", "list.int"]
+NDARRAY_KINDS = ["np.float64", "np.float32", "np.int64", "np.int32", "np.uint16"]     # arguments declared np.array and used as such
+_IRANGE = {"np.int8": (-128, 127), "np.uint8": (0, 255), "np.uint16": (0, 65535), "np.int32": (-2 ** 31, 2 ** 31 - 1)}
+
+
+def _is_int_kind(kind):
+    return kind is not None and (kind in ("int", "0d.int", "list.int") or kind.startswith("np.int") or kind.startswith("np.uint"))
+
+
+def _holds(x, kind):
+    """the carrier `kind` represents the real number x exactly"""
+    x = float(x)
+    if kind is None or kind in ("float", "np.float64", "0d.float", "list", "tuple"):
+        return True
+    if kind == "np.float32":
+        return float(np.float32(x)) == x
+    lo, hi = _IRANGE.get(kind, (-2 ** 62, 2 ** 62))
+    return x.is_integer() and lo <= x <= hi
+
+
+def _typed(x, kind):
+    """the value x in the carrier `kind` (None: as generated)"""
+    if x is None or kind is None:
+        return x
+    if kind == "float":
+        return float(x)
+    if kind == "int":
+        return int(x)
+    if kind.startswith("0d."):
+        return np.array(int(x) if kind == "0d.int" else float(x))
+    return getattr(np, kind[3:])(int(x) if _is_int_kind(kind) else x)
+
+
+def _typed_vector(xs, kind):
+    if kind is None or kind == "np.float64":
+        return np.array(xs, dtype=float)
+    if kind == "list":
+        return [float(x) for x in xs]
+    if kind == "tuple":
+        return tuple(float(x) for x in xs)
+    if kind == "list.int":
+        return [int(x) for x in xs]
+    return np.array([int(x) for x in xs] if _is_int_kind(kind) else xs, dtype=getattr(np, kind[3:]))
+
+
+def _pick(rng, x, kinds):
+    xs = x if isinstance(x, (list, tuple)) else [x]
+    return rng.choice([k for k in kinds if all(_holds(v, k) for v in xs)])
+
+
+def _gen_num(rng, rates=None, rmse=None, **ints):
+    """random carriers for the arguments of one pricing: the three rates, rmse, and the integer arguments given by keyword"""
+    num = {}
+    if rates is not None:
+        num["rates"] = [None if r is None else _pick(rng, r, REAL_KINDS) for r in rates]
+    if rmse is not None:
+        num["rmse"] = _pick(rng, rmse, REAL_KINDS)
+    for name, val in ints.items():
+        if val is not None:
+            num[name] = _pick(rng, val, INT_KINDS)
+    return num
+
+
+def _has_float32(num):
+    return "np.float32" in json_flat(num)
+
+
+def json_flat(x):
+    if isinstance(x, dict):
+        return [z for v in x.values() for z in json_flat(v)]
+    if isinstance(x, (list, tuple)):
+        return [z for v in x for z in json_flat(v)]
+    return [x]
 
 
 def alloc_probe(ctx, v, c, rmse, tag):
@@ -174,25 +265,82 @@ def alloc_scaled(ctx, v, c, rmse):
                 ctx.excluded_small_margin += 1
 
 
-def criteria_probe(ctx, alpha, ml, rmse):
+def alloc_typed(ctx, v, c, rmse, num):
+    """the allocation with the SAME values in other numeric carriers: V = v^2, C = c^2 with integer roots (every dtype holds them),
+    num = dict(vl=, cl=, rmse=).  S: no exception, the variance budget on what is returned; tie: N identical to the N of the float64
+    call (float32 vectors: within float32 rounding)."""
+    from rpylib.montecarlo.multilevel.criteria import compute_mc_paths_giles
+    V = [float(x * x) for x in v]
+    C = [float(x * x) for x in c]
+    desc = dict(v=v, c=c, rmse=rmse, num=num)
+    cls = dict(kind="typed", zero_cost_positive_variance=bool(any(ci == 0 and vi > 0 for vi, ci in zip(v, c))),
+               integer_cost_array=_is_int_kind(num.get("cl")), integer_variance_array=_is_int_kind(num.get("vl")))
+    loose = _has_float32(num)
+    with np.errstate(all="ignore"), warnings.catch_warnings():
+        warnings.simplefilter("ignore")
+        N0 = [int(x) for x in compute_mc_paths_giles(float(rmse), np.array(V), np.array(C))]
+        try:
+            N = [int(x) for x in compute_mc_paths_giles(_typed(rmse, num.get("rmse")), _typed_vector(V, num.get("vl")), _typed_vector(C, num.get("cl")))]
+        except Exception as e:
+            ctx.count("c06.alloc_typed", desc, nontrivial=False, branch="raised")
+            ctx.fail("oracle", "c06.alloc_raises", desc, {"what": repr(e)}, cls=cls)
+            return
+    ctx.count("c06.alloc_typed", desc, nontrivial=sum(1 for x in v if x > 0) >= 2, branch="returned")
+    for arg in ("vl", "cl", "rmse"):
+        ctx.branches[f"c06.alloc_typed.carrier:{arg}={num.get(arg)}"] += 1
+    share = float(ctx.gen["var_upper"]) if getattr(ctx, "gen", None) else 0.75
+    tol = 1e-5 if loose else 1e-9
+    tot = sum(Vl / Nl for Vl, Nl in zip(V, N) if Vl > 0 and Nl >= 1)
+    if len(N) != len(V) or any(Vl > 0 and Nl < 1 for Vl, Nl in zip(V, N)) or tot > share * rmse * rmse * (1 + tol):
+        ctx.fail("oracle", "c06.alloc_budget", desc, {"what": f"estimator variance {tot} exceeds the variance share {share}*rmse^2 = {share * rmse * rmse} when the "
+                                                             f"same values are handed over as {num}", "N": N, "N_float64": N0, "V": V, "C": C}, cls=cls)
+        return
+    if any(abs(a - b) > ((1 + 1e-5 * b) if loose else 0) for a, b in zip(N, N0)):
+        ctx.fail("corr", "c06.numeric_type", desc, {"name": "the model's allocation is a function of the values: compute_mc_paths_giles on equal values in other "
+                                                            "numeric carriers", "impl": N, "model": N0}, cls=cls)
+
+
+def criteria_probe(ctx, alpha, ml, rmse, num=None):
+    """num = dict(alpha=, ml=, rmse=): the carriers in which the values reach criteria_giles (see `_typed`)"""
     from rpylib.montecarlo.multilevel.criteria import criteria_giles
     desc = dict(alpha=alpha, ml=ml, rmse=rmse)
-    got = bool(criteria_giles(alpha, np.array(ml), rmse))
+    num = num or {}
+    cls = dict(kind="typed" if num else "plain")
+    if num:
+        desc["num"] = num
+        cls.update(alpha_type=num.get("alpha"), ml_type=num.get("ml"), rmse_type=num.get("rmse"))
+    try:
+        with np.errstate(all="ignore"), warnings.catch_warnings():
+            warnings.simplefilter("ignore")
+            got = bool(criteria_giles(_typed(alpha, num.get("alpha")), _typed_vector(ml, num.get("ml")), _typed(rmse, num.get("rmse"))))
+    except Exception as e:
+        ctx.count("c06.criteria", desc, nontrivial=False, branch="raised")
+        ctx.fail("oracle", "c06.criteria_raises", desc, {"what": repr(e)}, cls=cls)
+        return
     q = Fraction(2) ** int(alpha) if float(alpha).is_integer() else None
-    ctx.count("c06.criteria", desc, branch="accept" if got else "reject")
+    ctx.count("c06.criteria", desc, branch=("typed_" if num else "") + ("accept" if got else "reject"))
+    if num:
+        for arg in ("alpha", "ml", "rmse"):
+            ctx.branches[f"c06.criteria.carrier:{arg}={num.get(arg)}"] += 1
     if q is None or q <= 1:
         return
     st = ctx.gen["bias_threshold"] if getattr(ctx, "gen", None) else Fraction(1, 2)
     rem = max(Fraction(ml[-1]), Fraction(ml[-2]) / q, Fraction(ml[-3]) / (q * q)) / (q - 1)
-    if abs(rem - st * Fraction(rmse)) < Fraction(1, 2 ** 30) * Fraction(rmse):
+    if abs(rem - st * Fraction(rmse)) < Fraction(1, 2 ** (18 if _has_float32(num) else 30)) * Fraction(rmse):
         ctx.excluded_small_margin += 1
         return
     out = ctx.lean(f"criteria {w(st)} {w(q)} {w(ml[-1])} {w(ml[-2])} {w(ml[-3])} {w(rmse)}")
     if (out == "1") != got:
-        ctx.fail("corr", "c06.criteria.model", desc, {"name": "Drivers/C06 criteria vs criteria_giles", "impl": got, "model": out})
+        ctx.fail("corr", "c06.criteria.model", desc, {"name": "Drivers/C06 criteria vs criteria_giles", "impl": got, "model": out}, cls=cls)
+    if num:
+        ref = bool(criteria_giles(float(alpha), np.array(ml, dtype=float), float(rmse)))
+        if ref != got:
+            ctx.fail("corr", "c06.numeric_type", desc, {"name": "the model's bias test is a function of the values: criteria_giles on equal values in other "
+                                                                "numeric carriers", "impl": got, "model": ref}, cls=cls)
     # S: the accepted squared bias never exceeds the bias share the budget theorem was checked with
-    if got and float(rem) ** 2 > float(ctx.gen["bias_share"]) * rmse * rmse * (1 + 1e-9):
-        ctx.fail("oracle", "c06.bias_share", desc, {"what": "accepted remainder above the measured bias tolerance", "rem": float(rem)})
+    if got and float(rem) ** 2 > float(ctx.gen["bias_share"]) * float(rmse) ** 2 * (1 + 1e-9):
+        ctx.fail("oracle", "c06.bias_share", desc, {"what": "accepted remainder above the measured bias tolerance" +
+                                                            (f" when the values are handed over as {num}" if num else ""), "rem": float(rem)}, cls=cls)
 
 
 def loop_probe(ctx, L0, N0, level_max, hist, tag):
@@ -309,35 +457,68 @@ class _Recorder:
         return criteria
 
 
-def rates_probe(ctx, rates, decay, rmse, level_max, tag, cost_unit=1.0):
-    """The PUBLIC ConvergenceRates configuration with any None/given pattern of (alpha, beta, gamma) and the real Giles criteria
-    (wrapped only to record their arguments), judged by `_judge_rates`."""
+def _rates_run(rates, decay, rmse, level_max, cost_unit=1.0, num=None):
+    """one pricing with the public configuration objects and the real Giles criteria (wrapped only to record their arguments);
+    num: carriers of the numeric arguments, dict(rates=[k, k, k], rmse=k, level_max=k, L0=k, N0=k)"""
     from rpylib.montecarlo.configuration import ConfigurationMultiLevel, ConvergenceRates
     from rpylib.montecarlo.multilevel.criteria import ConvergenceCriteria, compute_mc_paths_giles, criteria_giles
     from rpylib.montecarlo.multilevel.engine import Engine
+    num = num or {}
+    rk = num.get("rates") or [None, None, None]
+    rec = _Recorder()
+    with warnings.catch_warnings():
+        warnings.simplefilter("ignore")
+        with np.errstate(all="ignore"):
+            cfg = ConfigurationMultiLevel(convergence_rates=ConvergenceRates(alpha=_typed(rates[0], rk[0]), beta=_typed(rates[1], rk[1]),
+                                                                             gamma=_typed(rates[2], rk[2])),
+                                          convergence_criteria=ConvergenceCriteria(criteria=rec.crit(criteria_giles),
+                                                                                   compute_mc_paths=rec.alloc(compute_mc_paths_giles)),
+                                          initial_level=_typed(2, num.get("L0")), maximum_level=_typed(level_max, num.get("level_max")),
+                                          initial_mc_paths=_typed(20, num.get("N0")), seed=None, nb_of_processes=1)
+            eng = Engine(configuration=cfg, coupling_process=DecayCoupling(decay, 1.0 / 16, cost_unit=cost_unit))
+            rec.engine = eng
+            st = eng.price(fe.identity_product(), rmse=_typed(rmse, num.get("rmse")))
+    res = st.mlmc_results
+    return rec.calls, dict(Nl=[int(x) for x in res.Nl], ml=[float(x) for x in res.ml], vl=[float(x) for x in res.vl], cl=[float(x) for x in res.cl])
+
+
+def _same_pricing(calls, final, calls0, final0):
+    """two records of one pricing agree: sizes, level statistics, and the weak rates / verdicts of every bias test"""
+    crit = lambda cs: [(c["alpha"], c["verdict"]) for c in cs if c["kind"] == "criteria"]
+    return (final["Nl"] == final0["Nl"] and all(np.allclose(final[q], final0[q], rtol=1e-12, atol=0, equal_nan=True) for q in ("ml", "vl", "cl"))
+            and crit(calls) == crit(calls0))
+
+
+def rates_probe(ctx, rates, decay, rmse, level_max, tag, cost_unit=1.0, num=None):
+    """The PUBLIC ConvergenceRates configuration with any None/given pattern of (alpha, beta, gamma) and the real Giles criteria
+    (wrapped only to record their arguments), judged by `_judge_rates`.  With `num` the same values are handed over in other numeric
+    carriers: judged in the same way (the oracles work on the values), and tied to the pricing with the canonical carriers."""
     desc = dict(rates=list(rates), decay=decay, rmse=rmse, level_max=level_max)
     if cost_unit != 1.0:
         desc["cost_unit"] = cost_unit
     cls = dict(kind=tag, pattern="".join("g" if r is not None else "N" for r in rates))
-    rec = _Recorder()
-    cfg = ConfigurationMultiLevel(convergence_rates=ConvergenceRates(alpha=rates[0], beta=rates[1], gamma=rates[2]),
-                                  convergence_criteria=ConvergenceCriteria(criteria=rec.crit(criteria_giles),
-                                                                           compute_mc_paths=rec.alloc(compute_mc_paths_giles)),
-                                  initial_level=2, maximum_level=level_max, initial_mc_paths=20, seed=None, nb_of_processes=1)
-    eng = Engine(configuration=cfg, coupling_process=DecayCoupling(decay, 1.0 / 16, cost_unit=cost_unit))
-    rec.engine = eng
-    with warnings.catch_warnings():
-        warnings.simplefilter("ignore")
-        with np.errstate(all="ignore"):
-            try:
-                st = eng.price(fe.identity_product(), rmse=rmse)
-            except Exception as e:
-                ctx.fail("oracle", "c06.engine_raises", desc, {"what": f"{type(e).__name__}: {e}"}, cls=cls)
-                return
+    if num:
+        desc["num"] = num
+        cls["typed"] = True
+    try:
+        calls, final = _rates_run(rates, decay, rmse, level_max, cost_unit, num)
+    except Exception as e:
+        ctx.fail("oracle", "c06.engine_raises", desc, {"what": f"{type(e).__name__}: {e}"}, cls=cls)
+        return
     ctx.count("c06.rates", desc, nontrivial=True, branch=f"{tag}:{cls['pattern']}")
-    res = st.mlmc_results
-    _judge_rates(ctx, desc, cls, rates, rmse, level_max, rec.calls,
-                 dict(Nl=[int(x) for x in res.Nl], vl=[float(x) for x in res.vl], cl=[float(x) for x in res.cl]))
+    _judge_rates(ctx, desc, cls, rates, rmse, level_max, calls, final)
+    if num:
+        for k in json_flat(num):
+            ctx.branches[f"c06.rates.carrier:{k}"] += 1
+        try:
+            calls0, final0 = _rates_run(rates, decay, rmse, level_max, cost_unit, None)
+        except Exception:                                           # judged when generated with the canonical carriers
+            return
+        if not _same_pricing(calls, final, calls0, final0):
+            crit = lambda cs: [[c["alpha"], c["verdict"]] for c in cs if c["kind"] == "criteria"]
+            ctx.fail("corr", "c06.numeric_type", desc, {"name": "the model's price is a function of the values: Engine.price with equal values in other numeric carriers",
+                                                        "impl": dict(Nl=final["Nl"], ml=final["ml"], bias_tests=crit(calls)),
+                                                        "model": dict(Nl=final0["Nl"], ml=final0["ml"], bias_tests=crit(calls0))}, cls=cls)
 
 
 def _judge_rates(ctx, desc, cls, rates, rmse, level_max, calls, final, br="c06.rates"):
@@ -459,8 +640,9 @@ def _rates_state(cr):
 
 def _cfg_state(cfg):
     cc = cfg.convergence_criteria
-    return dict(initial_level=cfg.initial_level, maximum_level=cfg.maximum_level, initial_mc_paths=cfg.initial_mc_paths, seed=cfg.seed,
-                nb_of_processes=cfg.nb_of_processes, rates_object=id(cfg.convergence_rates), rates=_rates_state(cfg.convergence_rates),
+    ji = lambda x: None if x is None else int(x)               # numpy integer scalars are not JSON-able
+    return dict(initial_level=ji(cfg.initial_level), maximum_level=ji(cfg.maximum_level), initial_mc_paths=ji(cfg.initial_mc_paths), seed=ji(cfg.seed),
+                nb_of_processes=ji(cfg.nb_of_processes), rates_object=id(cfg.convergence_rates), rates=_rates_state(cfg.convergence_rates),
                 criteria_object=id(cc), criteria_functions=[id(cc.criteria), id(cc.compute_mc_paths)],
                 control_variates=type(cfg.control_variates).__name__)
 
@@ -473,23 +655,26 @@ def _run_sequence(steps):
     shared, prev, out = {}, None, []
     for sp in steps:
         rates, how, reuse = list(sp["rates"]), sp["how"], sp["reuse"] if prev is not None else "new"
+        nk = sp.get("num") or {}                                # carriers of the numeric arguments of this pricing (see `_typed`)
+        rk = nk.get("rates") or [None, None, None]
         rec = dict(default_before=_rates_state(ConfigurationMultiLevel().convergence_rates))
 
         def user_rates():
+            new = lambda: ConvergenceRates(alpha=_typed(rates[0], rk[0]), beta=_typed(rates[1], rk[1]), gamma=_typed(rates[2], rk[2]))
             if how == "shared":
-                if repr(rates) not in shared:
-                    shared[repr(rates)] = ConvergenceRates(alpha=rates[0], beta=rates[1], gamma=rates[2])
-                return shared[repr(rates)]
-            return ConvergenceRates(alpha=rates[0], beta=rates[1], gamma=rates[2])
+                if repr((rates, rk)) not in shared:
+                    shared[repr((rates, rk))] = new()
+                return shared[repr((rates, rk))]
+            return new()
 
         coupling = DecayCoupling(sp["decay"], sp["spread"], cost_unit=sp.get("cost_unit", 1.0), amp=sp.get("amp", 1.0))
         user_obj = None
         if reuse == "new":
-            kw = dict(maximum_level=sp["level_max"], nb_of_processes=1)
+            kw = dict(maximum_level=_typed(sp["level_max"], nk.get("level_max")), nb_of_processes=1)
             if sp.get("L0") is not None:
-                kw["initial_level"] = sp["L0"]
+                kw["initial_level"] = _typed(sp["L0"], nk.get("L0"))
             if sp.get("N0") is not None:
-                kw["initial_mc_paths"] = sp["N0"]
+                kw["initial_mc_paths"] = _typed(sp["N0"], nk.get("N0"))
             if how == "none":
                 kw["convergence_rates"] = None
             elif how != "default":
@@ -500,11 +685,11 @@ def _run_sequence(steps):
             eng = Engine(configuration=cfg, coupling_process=coupling)
         else:
             cfg = prev["cfg"]
-            cfg.maximum_level = sp["level_max"]
+            cfg.maximum_level = _typed(sp["level_max"], nk.get("level_max"))
             if sp.get("L0") is not None:                    # None: the user leaves what he set before
-                cfg.initial_level = sp["L0"]
+                cfg.initial_level = _typed(sp["L0"], nk.get("L0"))
             if sp.get("N0") is not None:
-                cfg.initial_mc_paths = sp["N0"]
+                cfg.initial_mc_paths = _typed(sp["N0"], nk.get("N0"))
             if not sp.get("keep"):
                 user_obj = cfg.convergence_rates = user_rates()
             else:
@@ -529,7 +714,7 @@ def _run_sequence(steps):
             with warnings.catch_warnings():
                 warnings.simplefilter("ignore")
                 with np.errstate(all="ignore"):
-                    st = eng.price(fe.identity_product(), rmse=sp["rmse"])
+                    st = eng.price(fe.identity_product(), rmse=_typed(sp["rmse"], nk.get("rmse")))
             res = st.mlmc_results
             rec["final"] = dict(Nl=[int(x) for x in res.Nl], ml=[float(x) for x in res.ml], vl=[float(x) for x in res.vl], cl=[float(x) for x in res.cl])
         except Exception as e:
@@ -636,6 +821,8 @@ def sequence_probe(ctx, steps, tag):
         d = dict(desc, step=k)
         cls = dict(kind=tag, pattern="".join("g" if r is not None else "N" for r in rates), step=k, first=k == 0, how=sp["how"],
                    reuse=sp["reuse"] if k else "new", keep=bool(sp.get("keep")) and k > 0)
+        if sp.get("num"):
+            cls["typed"] = True
         ctx.branches[f"c06.sequence.step:{cls['how']}/{cls['reuse']}/{'first' if k == 0 else 'later'}"] += 1
         if "raised" in rec:
             ctx.fail("oracle", "c06.engine_raises", d, {"what": rec["raised"]}, cls=cls)
@@ -652,6 +839,22 @@ def sequence_probe(ctx, steps, tag):
         if changed:
             ctx.fail("corr", "c06.sequence.mutation", d, {"name": "the model's price is a function of the configuration and leaves it alone; Engine.price changed "
                                                                   "objects that outlive the pricing", "impl": changed, "model": "unchanged"}, cls=cls)
+        # the same VALUES in the canonical numeric carriers, as the first pricing of a new interpreter
+        if sp.get("num") and "final" in rec:
+            for kd in json_flat(sp["num"]):
+                ctx.branches[f"c06.sequence.carrier:{kd}"] += 1
+            d0 = _as_first(sp, rec)
+            d0.pop("num")
+            ref = _Fresh.run(ctx, [d0])
+            if "records" in ref and "final" in ref["records"][0]:
+                r0 = ref["records"][0]
+                if _same_pricing(rec["calls"], rec["final"], r0["calls"], r0["final"]):
+                    ctx.branches["c06.sequence:equals_canonical_carriers"] += 1
+                else:
+                    crit = lambda cs: [[c["alpha"], c["verdict"]] for c in cs if c["kind"] == "criteria"]
+                    ctx.fail("corr", "c06.numeric_type", d, {"name": "the model's price is a function of the values: a pricing with equal values in other numeric carriers",
+                                                             "impl": dict(Nl=rec["final"]["Nl"], ml=rec["final"]["ml"], bias_tests=crit(rec["calls"])),
+                                                             "model": dict(Nl=r0["final"]["Nl"], ml=r0["final"]["ml"], bias_tests=crit(r0["calls"]))}, cls=cls)
         # the same pricing as the first pricing of a new interpreter
         if k > 0:
             ref = _Fresh.run(ctx, [_as_first(sp, rec)])
@@ -680,7 +883,7 @@ def _step(rates, how, reuse, decay, keep=False, crit="default", amp=1.0, spread=
                 level_max=level_max, L0=L0, N0=N0)
 
 
-def gen_sequence(rng, n=None, p_none=0.5):
+def gen_sequence(rng, n=None, p_none=0.5, p_typed=0.5):
     """random sequence of 2..4 pricings: None / partial / given rates, every way of handing them over, new or reused configuration /
     engine objects, a different decay regime in every pricing"""
     n = n or rng.randint(2, 4)
@@ -701,6 +904,8 @@ def gen_sequence(rng, n=None, p_none=0.5):
         sp = _step(rates, how, reuse, decay, keep=keep, crit=rng.choice(["default", "passed"]), amp=rng.choice([1.0, 1.0, 0.25, 2.0]),
                    spread=rng.choice([1.0 / 16, 1.0 / 8]), rmse=rng.choice([1 / 64, 1 / 128]), level_max=rng.randint(4, 8),
                    L0=rng.choice([None, None, 3]), N0=rng.choice([20, 20, 50, None]))
+        if rng.random() < p_typed:                              # the same values in other numeric carriers
+            sp["num"] = _gen_num(rng, rates=None if keep else rates, rmse=sp["rmse"], level_max=sp["level_max"], L0=sp["L0"], N0=sp["N0"])
         steps.append(sp)
         prev = sp
     return steps
@@ -761,7 +966,28 @@ def run(ctx):
         rmse = 2.0 ** -rng.randint(1, 8)
         base = rmse * rng.choice([0.1, 0.4, 0.5, 0.6, 1.0, 2.0]) * (2 ** alpha - 1)
         ml = [base * rng.choice([0.5, 1, 2, 4, 8]) * (1 + dy(-1, 1, 10) / 8) for _ in range(3)]
-        criteria_probe(ctx, alpha, [abs(x) for x in ml], rmse)
+        ml = [abs(x) for x in ml]
+        criteria_probe(ctx, alpha, ml, rmse)
+        # the same values in other numeric carriers (the rate as int / numpy scalar / 0-d array, the means as list / tuple / float32 array ...)
+        for _ in range(2):
+            criteria_probe(ctx, alpha, ml, rmse, num=dict(alpha=_pick(rng, alpha, REAL_KINDS), ml=_pick(rng, ml, VECTOR_KINDS), rmse=_pick(rng, rmse, REAL_KINDS)))
+    # all-integral values (every carrier holds them): means 0..16, rmse 1..8, every carrier of alpha at least once per vector kind
+    for i in range(ctx.n(120, 2400)):
+        alpha, rmse = rng.choice([1, 1, 2, 3]), rng.choice([1, 2, 4, 8])
+        ml = [rng.randint(0, 16) for _ in range(rng.randint(3, 6))]
+        num = dict(alpha=REAL_KINDS[i % len(REAL_KINDS)], ml=_pick(rng, ml, VECTOR_KINDS), rmse=_pick(rng, rmse, REAL_KINDS))
+        criteria_probe(ctx, alpha, ml, rmse, num=num)
+    # the allocation on equal values in other dtypes (declared np.array: ndarray carriers only), rmse integral or dyadic
+    for _ in range(ctx.n(150, 3000)):
+        n = rng.randint(1, 6)
+        v = [rng.randint(0, 12) if rng.random() < 0.85 else 0 for _ in range(n)]
+        c = [rng.randint(1, 15) for _ in range(n)]
+        if rng.random() < 0.1:
+            c[rng.randrange(n)] = 0
+        rmse = rng.choice([1, 2, 2.0 ** -rng.randint(1, 4), 1.5])
+        V, C = [x * x for x in v], [x * x for x in c]
+        alloc_typed(ctx, v, c, rmse, dict(vl=_pick(rng, V, NDARRAY_KINDS), cl=_pick(rng, C, NDARRAY_KINDS if rng.random() < 0.3 else ["np.float64", "np.float32"]),
+                                         rmse=_pick(rng, rmse, REAL_KINDS)))
     for _ in range(ctx.n(80, 1500)):
         level_max = rng.randint(1, 8)
         L0 = rng.randint(0, min(4, level_max))
@@ -773,6 +999,18 @@ def run(ctx):
             rates = tuple(g if (pat >> i) & 1 else None for i, g in enumerate(given))
             for rmse in ((1 / 64, 1 / 256) if ctx.thorough else (1 / 128,)):
                 rates_probe(ctx, rates, decay, rmse, 8, "rates")
+    # the same pricings with the numeric arguments in other carriers: the rates written as a user writes them (ConvergenceRates(1, 2, 1)),
+    # as numpy integers / float32 / 0-d arrays; rmse, levels and path numbers likewise; level means decaying faster / slower than alpha
+    typed = [((1.0, 2.0, 1.0), 1.5, dict(rates=["int", "int", "int"])), ((1.0, 2.0, 1.0), 2.0, dict(rates=["np.int64", "np.int64", "np.int64"])),
+             ((2.0, 2.0, 1.0), 1.0, dict(rates=["int", "float", "int"], level_max="np.int64", N0="np.int32", L0="np.uint8")),
+             ((1.0, None, None), 2.5, dict(rates=["int", None, None], rmse="np.float32")), ((1.0, 1.0, 2.0), 2.5, dict(rates=["0d.int", "np.float32", "np.uint8"], rmse="0d.float"))]
+    for given, decay, num in typed:
+        rates_probe(ctx, given, decay, 1 / 128, 8, "rates_typed", num=num)
+    for _ in range(ctx.n(10, 120)):
+        given, pat = rng.choice(GIVEN_RATES), rng.choice([1, 3, 5, 7, 7, rng.randrange(1, 8)])
+        rates = tuple(g if (pat >> i) & 1 else None for i, g in enumerate(given))
+        rmse, level_max = rng.choice([1 / 64, 1 / 128]), rng.randint(5, 8)
+        rates_probe(ctx, rates, rng.choice(DECAYS), rmse, level_max, "rates_typed", num=_gen_num(rng, rates=rates, rmse=rmse, level_max=level_max, L0=2, N0=20))
     # the real loop with the real Giles criteria and a coupling that expresses its costs in tiny / huge units
     for unit in (2.0 ** -40, 1e-9, 1e-12, 2.0 ** 20, 2.0 ** -10):
         for decay in ((1.5, 1.0) if ctx.thorough else (1.5,)):
@@ -806,14 +1044,16 @@ def replay(ctx, rec):
         return
     if "steps" in d:
         sequence_probe(ctx, d["steps"], rec.get("cls", {}).get("kind", "replay"))
+    elif "num" in d and "v" in d:
+        alloc_typed(ctx, d["v"], d["c"], d["rmse"], d["num"])
     elif "cost_scale" in d:
         alloc_scaled(ctx, d["v"], d["c"], d["rmse"])
     elif "v" in d:
         alloc_probe(ctx, d["v"], d["c"], d["rmse"], rec.get("cls", {}).get("kind", "replay"))
     elif "ml" in d:
-        criteria_probe(ctx, d["alpha"], d["ml"], d["rmse"])
+        criteria_probe(ctx, d["alpha"], d["ml"], d["rmse"], num=d.get("num"))
     elif "decay" in d:
         rates_probe(ctx, tuple(d["rates"]), d["decay"], d["rmse"], d["level_max"], rec.get("cls", {}).get("kind", "replay"),
-                    cost_unit=d.get("cost_unit", 1.0))
+                    cost_unit=d.get("cost_unit", 1.0), num=d.get("num"))
     elif "history" in d:
         loop_probe(ctx, d["L0"], d["N0"], d["level_max"], [(a, b, c) for a, b, c in d["history"]], rec.get("cls", {}).get("kind", "replay"))
